@@ -246,4 +246,100 @@ example :
       [.reply ⟨5, 1, 2⟩, .reply ⟨6, 2, 2⟩, .reply ⟨6, 1, 2⟩, .reply ⟨6, 2, 2⟩]
       = (⟨none⟩, [some ⟨6, 1, 2⟩, some ⟨6, 2, 2⟩], .sched 6) := by decide
 
+/-! ### writing a schedule -/
+
+/-- a write that got the lock never keeps it, however it ends -/
+theorem set_no_residue (t : Tcs) (z : String) (o : Bool) (cache : Cache) (new : Nat) (frags : List WExch) (ver : Exch)
+    (h : (setSchedule false t z o cache new frags ver).2.2 ≠ .lockTimeout) :
+    (setSchedule false t z o cache new frags ver).1.lockIdx = none := by
+  unfold setSchedule at h ⊢
+  cases hob : obtain t z o with
+  | mk t1 ok =>
+    cases ok with
+    | false => simp [hob] at h
+    | true =>
+      simp only [hob]
+      cases writeLoop frags with
+      | some r => rfl
+      | none => cases ver <;> rfl
+
+/-- **a write that fails or is abandoned leaves nothing behind**: unless it ended with the controller's
+    acknowledgement of every fragment *and* a change counter read back, the zone believes exactly what it
+    believed before (schedule and label) -/
+theorem set_failure_keeps_cache (t : Tcs) (z : String) (o : Bool) (cache : Cache) (new : Nat) (frags : List WExch) (ver : Exch)
+    (h : ∀ v, (setSchedule false t z o cache new frags ver).2.2 ≠ .sched v) :
+    (setSchedule false t z o cache new frags ver).2.1 = cache := by
+  unfold setSchedule at h ⊢
+  cases hob : obtain t z o with
+  | mk t1 ok =>
+    cases ok with
+    | false => simp
+    | true =>
+      simp only [hob] at h ⊢
+      cases hw : writeLoop frags with
+      | some r => simp
+      | none =>
+        simp only [hw] at h
+        cases ver with
+        | fail => simp
+        | cancel => simp
+        | reply f => exact absurd rfl (h f.ver)
+
+/-- a write succeeds exactly when every fragment was acknowledged and the counter was read; the zone then
+    holds the new schedule labelled with that counter -/
+theorem set_success (t : Tcs) (z : String) (o : Bool) (cache : Cache) (new : Nat) (frags : List WExch) (ver : Exch) (v : Nat)
+    (h : (setSchedule false t z o cache new frags ver).2.2 = .sched v) :
+    (∀ e ∈ frags, e = .ack) ∧ (∃ f, ver = .reply f ∧ f.ver = v) ∧
+    (setSchedule false t z o cache new frags ver).2.1 = ⟨some new, v⟩ := by
+  have hall : ∀ fr : List WExch, writeLoop fr = none → ∀ e ∈ fr, e = .ack := by
+    intro fr
+    induction fr with
+    | nil => intro _ e he; cases he
+    | cons x xs ih =>
+      intro hw e he
+      cases x with
+      | ack =>
+        simp only [writeLoop] at hw
+        rcases List.mem_cons.1 he with h | h
+        · exact h
+        · exact ih hw e h
+      | fail => simp [writeLoop] at hw
+      | cancel => simp [writeLoop] at hw
+  unfold setSchedule at h ⊢
+  cases hob : obtain t z o with
+  | mk t1 ok =>
+    cases ok with
+    | false => simp [hob] at h
+    | true =>
+      simp only [hob] at h ⊢
+      cases hw : writeLoop frags with
+      | some r =>
+        simp only [hw] at h
+        have : r ≠ .sched v := by
+          intro e
+          subst e
+          -- writeLoop never yields a schedule
+          have : ∀ fr : List WExch, writeLoop fr ≠ some (.sched v) := by
+            intro fr
+            induction fr with
+            | nil => simp [writeLoop]
+            | cons x xs ih => cases x <;> simp [writeLoop, ih]
+          exact this frags hw
+        exact absurd h this
+      | none =>
+        simp only [hw] at h ⊢
+        cases ver with
+        | fail => simp at h
+        | cancel => simp at h
+        | reply f =>
+          simp only [Result.sched.injEq] at h
+          exact ⟨hall frags hw, ⟨f, rfl, h⟩, by subst h; rfl⟩
+
+/-- storing the new schedule before it is written (the seeded variant) leaves, after a failed write, a
+    schedule the controller never accepted under the old label -/
+theorem cache_early_leaks_witness :
+    (setSchedule true ⟨none⟩ "01" true ⟨some 7, 0x0105⟩ 8 [.ack, .fail] (.reply ⟨0x0105, 0, 0⟩)).2 = (⟨some 8, 0x0105⟩, .error) ∧
+    (setSchedule false ⟨none⟩ "01" true ⟨some 7, 0x0105⟩ 8 [.ack, .fail] (.reply ⟨0x0105, 0, 0⟩)).2 = (⟨some 7, 0x0105⟩, .error) := by
+  decide
+
 end Ramses.C18
